@@ -808,10 +808,12 @@ func (self *Node) getState() MetadataState {
 }
 
 func (self *Node) reset() error {
-	if self.top.rt.Config.FullStageReset {
+	if self.top.rt.Config.FullStageReset && self.call.Kind() == syntax.KindStage {
 		util.PrintInfo("runtime", "(reset)           %s", self.call.GetFqid())
 
-		// Blow away the entire stage node.
+		// Blow away the entire stage node.  Only stages: the directory of a
+		// pipeline node contains the directories of all of its calls, whose
+		// finished work would be deleted without being scheduled to run again.
 		if err := os.RemoveAll(self.path); err != nil {
 			util.PrintInfo("runtime",
 				`Cannot reset the stage because its folder contents could not be deleted.
